@@ -131,6 +131,82 @@ def run_case(case: dict) -> list[tuple[str, str]]:
     return agree(parse_all(data))
 
 
+def run_nsgroup(case: dict) -> list[tuple[str, str]]:
+    """Several graphs with namespace bindings through one grouped stream, declarations on:
+    the generic sinks are built from the rdflib graphs (same statements in the same order,
+    same bindings in the same order), so the two outputs must be byte-identical."""
+    import rdflib  # noqa: PLC0415
+
+    from mc.checks import c14  # noqa: PLC0415
+    from pyjelly.integrations.generic import generic_sink as gs  # noqa: PLC0415
+    from pyjelly.integrations.generic import serialize as gser  # noqa: PLC0415
+    from pyjelly.integrations.rdflib import serialize as rser  # noqa: PLC0415
+
+    cls = case["cls"]
+    alpha = RR.alphabet("r_prefix", cls)
+    graphs, sinks = [], []
+    for part, bl in zip(case["parts"], case["bindings"]):
+        g = c14.r_source(cls, [alpha[i] for i in part], [c14.BINDINGS[i] for i in bl])
+        sink = gs.GenericStatementSink()
+        for pfx, ns in g.namespaces():
+            sink.bind(pfx, gs.IRI(str(ns)))
+        if cls == "triple":
+            for tr in g:
+                sink.add(T.st_to_generic(tuple(T.from_rdflib(t) for t in tr)))
+        else:
+            for s, p, o, c in g.quads():
+                sink.add(T.st_to_generic((T.from_rdflib(s), T.from_rdflib(p), T.from_rdflib(o),
+                                          T.from_rdflib(c, graph_pos=True))))
+        graphs.append(g)
+        sinks.append(sink)
+    outs = []
+    for ser, items in ((gser, sinks), (rser, graphs)):
+        opts = DR.make_options(cls, tuple(case["preset"]), case["frame_size"], True,
+                               RR.GROUPED_LT[cls], generalized=False, rdf_star=False, ns=True)
+        out = io.BytesIO()
+        try:
+            ser.grouped_stream_to_file((x for x in items), out, options=opts)
+        except Exception as e:  # noqa: BLE001
+            return [("serialize-raised", f"{ser.__name__}: {type(e).__name__}: {e}")]
+        outs.append(out.getvalue())
+    if outs[0] != outs[1]:
+        from mc import jwire  # noqa: PLC0415
+
+        def shape(b):
+            return [[r["kind"] for r in f["rows"]].count("namespace") for f in jwire.read_delimited(b)]
+        return [("serializers-differ",
+                 f"grouped stream of {len(graphs)} graphs with declarations: generic wrote "
+                 f"{len(outs[0])} bytes (declarations per frame {shape(outs[0])}), rdflib wrote "
+                 f"{len(outs[1])} bytes (declarations per frame {shape(outs[1])})")]
+    return []
+
+
+def nsgroup_shard(job) -> dict:
+    _, cls, pi = job
+    DR.ensure_rdflib_plugin()
+    acc = pool.Acc()
+    preset = RR.R_SCOPES["r_prefix"]["presets"][pi]
+    parts_list = [([0], [1]), ([0, 1], [2]), ([3], [3, 4]), ([0], [1], [2]), ([5], [], [0])]
+    bind_lists = [(), (0,), (0, 3), (3, 0), (7,)]
+    for parts in parts_list:
+        for b1 in bind_lists:
+            for b2 in bind_lists:
+                bl = [b1, b2, b1][: len(parts)]
+                for fs in (1, 250):
+                    case = {"kind": "nsgroup", "cls": cls, "preset": list(preset), "frame_size": fs,
+                            "parts": [list(p) for p in parts], "bindings": [list(b) for b in bl]}
+                    alpha = RR.alphabet("r_prefix", cls)
+                    if not all(AL.fits(alpha[i], preset) for p in parts for i in p):
+                        acc.counters["out_of_domain"] += 1
+                        continue
+                    acc.evals += 1
+                    acc.nontrivial += 1
+                    for k, msg in run_nsgroup(case):
+                        acc.violation({"kind": "nsgroup", "fail": k}, f"{msg} case={case}", case)
+    acc.sample({"kind": "nsgroup", "cls": cls, "preset": preset}, cap=1)
+    return acc.out()
+
+
 def bulk_seq(n: int, cls: str) -> list:
     """n distinct RDF 1.1 statements (beyond any internal batch size such as 1000)."""
     from mc.terms import DEFAULT, I, L  # noqa: PLC0415
@@ -175,6 +251,8 @@ def run_bulk(case: dict) -> list:
 def shard(job) -> dict:
     if job[0] == "bulk":
         return bulk_shard(job)
+    if job[0] == "nsgroup":
+        return nsgroup_shard(job)
     kind, scope, cls, pi, L, lo, hi = job
     DR.ensure_rdflib_plugin()
     acc = pool.Acc()
@@ -240,6 +318,9 @@ def run(ctx) -> None:
     for n in ((1001, 2100) if ctx.quick else (1000, 1001, 2002, 2100, 5003)):
         for cls in DR.CLASSES:
             jobs.append(("bulk", n, cls))
+    for cls in ("triple", "quad"):
+        for pi in range(4):
+            jobs.append(("nsgroup", cls, pi))
     merged = pool.merge(pool.pmap(shard, jobs))
     ctx.add(merged)
     ctx.coverage.update(
@@ -254,7 +335,9 @@ def run(ctx) -> None:
             "options (byte-identical?), every byte string through flat / grouped / parse-to-graph "
             "of both integrations (agreement within and across integrations); plus reference-"
             "encoder streams with <=1 deviation through the same six parsers; bulk streams of "
-            "1001..5003 distinct statements (beyond internal batch sizes); non-trivial = "
+            "1001..5003 distinct statements (beyond internal batch sizes); grouped streams of 2-3 "
+            "graphs/datasets with namespace bindings and declarations on, written by both "
+            "integrations from corresponding containers (byte-identical?); non-trivial = "
             "at least two statements / at least one deviation"
         ),
     )
@@ -264,4 +347,6 @@ def replay(case: dict) -> list:
     DR.ensure_rdflib_plugin()
     if case["kind"] == "bulk":
         return [m for _, m in run_bulk(case)]
+    if case["kind"] == "nsgroup":
+        return [m for _, m in run_nsgroup(case)]
     return [m for _, m in run_case(case)]
